@@ -10,6 +10,7 @@ eff(a.legs[0]) + eff(a.legs[1]) = a.qtotal on stored blocks.
 Obligation at every `Array([l1, l2], dtype, qtotal)` construction: eff(l1) + eff(l2) - qtotal == 0.
 """
 import ast
+import re
 import itertools
 
 from .core import AnalysisError, dotted, key_text, stmts_of, unparse
@@ -260,6 +261,13 @@ class Interp:
                     self.env[st.target.id] = UNK
         elif isinstance(st, ast.If):
             t = self.test(st.test)
+            key = unparse(st.test)
+            if t is None and key in self.consts:
+                # decided by the case split of the caller; `np.any(N != 0)` false means N == 0
+                t = self.consts[key]
+                mm = re.fullmatch(r'np\.any\((\w+) != 0\)', key)
+                if t is False and mm:
+                    self.env[mm.group(1)] = ZERO
             if t is True:
                 return self.block(st.body)
             if t is False:
@@ -425,6 +433,37 @@ def _run_cases_svd(rep, m, f, rule):
                               'by [%r] (qtotal_L + qtotal_R = a.qtotal assumed): U / VH are not '
                               'charge-consistent for a non-zero qtotal_LR or inner_qconj=-1' %
                               (cfg, desc, residual), line)
+    # full_matrices=True: square factors on the legs of `a`; the blocks are diagonal (qi, qi).
+    # Conditions `np.any(qtotal_X != 0)` found in the function are case-split (false: X == 0).
+    conds = sorted({unparse(st.test) for st in ast.walk(f) if isinstance(st, ast.If) and
+                    re.fullmatch(r'np\.any\(qtotal_\w+ != 0\)', unparse(st.test))})
+    for s0, s1 in itertools.product((1, -1), repeat=2):
+        for choice in itertools.product((True, False), repeat=len(conds)):
+            cfg = {'s0': s0, 's1': s1, 'inner_qconj': 1}
+            consts = {'full_matrices': True, 'compute_uv': True}
+            consts.update(dict(zip(conds, choice)))
+            it = Interp(f, cfg, (), 'a', consts=consts)
+            it.env['qtotal_LR'] = [Poly.sym('qt_a') - Poly.sym('qtotal_R'), Poly.sym('qtotal_R')]
+            it.run()
+            if len(it.obligations) < 2:
+                raise AnalysisError('_svd_worker(full_matrices=True): U/VH not reached')
+            for desc, residual, line in it.obligations:
+                n_ob += 1
+                rep.instance(rule, {'function': '_svd_worker', 'construction': desc,
+                                    'signs': cfg, 'full_matrices': True,
+                                    'case': dict(zip(conds, choice))})
+                if residual is None:
+                    raise AnalysisError('_svd_worker(full_matrices=True): cannot evaluate `%s`'
+                                        % desc)
+                if residual.is_zero():
+                    n_dis += 1
+                elif ('full', desc) not in reported:
+                    reported.add(('full', desc))
+                    rep.violation(rule, m, '_svd_worker', 'charge-imbalance-full:' + desc[:50],
+                                  'full_matrices=True, directions %s, case %s: the diagonal blocks '
+                                  '(qi, qi) of `%s` have total charge differing from the declared '
+                                  'one by [%r]: the factor fails its sanity check for a.qtotal != 0'
+                                  % (cfg, dict(zip(conds, choice)), desc, residual), line)
     return n_ob, n_dis
 
 
